@@ -13,6 +13,7 @@ RULE = ("stopping games with absorbing finals (classes G-ACY/G-CYC/G-SLOW/G-DEAD
         "policy iteration + Bellman certificate); band delta*T_max(s).  Boards and committed inputs in Bellman-residual form.  "
         "Non-trivial: conditioning changed the game (a Player-1 action or dead branch removed) or the game is cyclic; "
         "distinct = game hash x pruning mode.")
+RULE += (' Also (rounds 5-6): G-GAP/G-GAPLOOP (values 1e-9..1e-4 apart around the 6-digit resolution), G-CORR, G-BIGR, G-DIGIT (digit-only / ambiguous action names), G-RETRY (cycles through state 0), G-FINREP (final states listed repeatedly, as list or tuple); a seventh of the solves pass the pruning flag as the int 1/0; an eighth of the batches each run with the root logger at DEBUG, under python -O, and with warnings raised on behalf of the repository turned into errors. THREADS class: the real code called from 3-4 threads of one interpreter (1 us switch interval, yield injection at every ~1000-3000th executed line), each concurrent outcome compared with the sequential outcome of the same process. run_games entries and the INFO log lines (M-LOG) are compared with solve() on a tenth of the games.')
 FLOOR = 300
 REQUIRED = ["solve.ok", "step.vi_total_calls"]
 ASSUMPTIONS = ["value form only for games that are stopping with zero-reward absorbing states (decided by the MEC test, never assumed)",
